@@ -4,10 +4,13 @@
    specific to inplace_string — the extra argument checks of strings::find and find_first_of, the
    "count > size() - pos ? size() : count" clamps of compare, the forwarding of each overload — is proved here. *)
 From Tetl Require Import Lib.Base Lib.Arr C08.Model C08.Spec C08.Core C08.ProofsFind C08.ProofsCmp
-  C08.ProofsRfind C08.ProofsPtr C04.Model C04.ModelQ C04.Spec C04.SpecQ C04.Inv C04.InvOps C04.RefineBase.
+  C08.ProofsRfind C08.ProofsPtr C04.Model C04.ModelQ C04.Spec C04.SpecQ C04.QueryOk C04.Inv C04.InvOps C04.RefineBase.
 From Coq Require Import ZifyBool.
 Local Open Scope Z_scope.
 Ltac Zify.zify_post_hook ::= Z.to_euclidean_division_equations.
+
+Lemma view_chars_eq v : view_chars v = vchars v.
+Proof. reflexivity. Qed.
 
 (** * the view of a string *)
 Lemma view_of_ok s : inv s -> view_ok (view_of s) /\ vchars (view_of s) = contents s.
@@ -71,7 +74,7 @@ Theorem search_correct f s n pos : inv s -> needle_ok n -> pos_ok pos ->
   search_m f s n pos = Ok (search_s f (contents s) (needle_chars n) pos).
 Proof.
   intros I Hn Hp. destruct (view_of_ok s I) as (Hh & Hch).
-  destruct n as [v|a count|a|c]; cbn [search_m needle_chars needle_ok] in *.
+  destruct n as [v|a count|a|c]; cbn [search_m needle_chars needle_ok] in *; rewrite ?view_chars_eq.
   - apply search_view_correct; assumption.
   - destruct Hn as (Ha & Hc). destruct (ptr_view_spec a count Ha Hc) as (Hok & Hpv).
     rewrite <- Hpv. apply search_view_correct; assumption.
@@ -98,7 +101,7 @@ Theorem compare_call_correct s c : inv s -> cmp_call_ok c ->
   res_opt (compare_call_m s c) (compare_call_s (ct_of (ckind s)) (contents s) c).
 Proof.
   intros I Hc. destruct (view_of_ok s I) as (Hh & Hch). rewrite <- Hch.
-  destruct c; cbn [compare_call_m compare_call_s cmp_call_ok] in *.
+  destruct c; cbn [compare_call_m compare_call_s cmp_call_ok] in *; rewrite ?view_chars_eq.
   - rewrite compare_correct by assumption. reflexivity.
   - destruct Hc as (Hb & Hp & Hn). rewrite clamped_sub_eq by assumption.
     apply (compare3_correct (ckind s) (view_of s) pos count b); assumption.
@@ -118,7 +121,7 @@ Theorem starts_with_call_correct s p : inv s -> chars_ok (ct_of (ckind s)) (cont
   starts_with_call_m s p = Ok (starts_with_s (contents s) (pfx_chars p)).
 Proof.
   intros I Cs Hp. destruct (view_of_ok s I) as (Hh & Hch). rewrite <- Hch in *.
-  destruct p; cbn [starts_with_call_m pfx_chars pfx_ok] in *.
+  destruct p; cbn [starts_with_call_m pfx_chars pfx_ok] in *; rewrite ?view_chars_eq.
   - destruct Hp. apply starts_with_correct; assumption.
   - apply starts_with_c_correct; assumption.
   - destruct Hp. apply starts_with_p_correct; assumption.
@@ -128,7 +131,7 @@ Theorem ends_with_call_correct s p : inv s -> chars_ok (ct_of (ckind s)) (conten
   ends_with_call_m s p = Ok (ends_with_s (contents s) (pfx_chars p)).
 Proof.
   intros I Cs Hp. destruct (view_of_ok s I) as (Hh & Hch). rewrite <- Hch in *.
-  destruct p; cbn [ends_with_call_m pfx_chars pfx_ok] in *.
+  destruct p; cbn [ends_with_call_m pfx_chars pfx_ok] in *; rewrite ?view_chars_eq.
   - destruct Hp. apply ends_with_correct; assumption.
   - apply ends_with_c_correct; assumption.
   - destruct Hp. apply ends_with_p_correct; assumption.
@@ -138,7 +141,7 @@ Theorem contains_call_correct s p : inv s -> pfx_ok' p ->
   contains_call_m s p = Ok (contains_s (contents s) (pfx_chars p)).
 Proof.
   intros I Hp. destruct (view_of_ok s I) as (Hh & Hch). rewrite <- Hch.
-  destruct p; cbn [contains_call_m pfx_chars pfx_ok'] in *.
+  destruct p; cbn [contains_call_m pfx_chars pfx_ok'] in *; rewrite ?view_chars_eq.
   - apply contains_correct; assumption.
   - apply contains_c_correct; assumption.
   - apply contains_p_correct; assumption.
@@ -234,4 +237,42 @@ Theorem empty_full_correct s : inv s ->
   empty_m s = (slen (contents s) =? 0) /\ full_m s = (slen (contents s) =? cap s).
 Proof.
   intros I. pose proof (contents_len s I) as L. change zlen with slen in L. unfold empty_m, full_m. rewrite L. split; reflexivity.
+Qed.
+
+(** * c_str() / data() is a valid C string: Traits::length (the C08 strlen model: a scan for the null
+      character that is UB as soon as it leaves the array) run on the Capacity+1 characters of the object
+      returns, stops at or before size(), and yields exactly the contents up to their first null character *)
+Theorem c_str_valid s : inv s ->
+  exists n, strlen_m (arr_view (buf s)) = Ok n /\ 0 <= n <= get_size s /\
+            firstn (Z.to_nat n) (buf s) = cstr_s (contents s ++ [0]) /\
+            (Forall (fun c => c <> 0) (contents s) -> n = get_size s).
+Proof.
+  intros I. pose proof I as (Hc & Hl & Hs & Ht). unfold cap_ok in Hc.
+  assert (Hb : zlen (buf s) < 9223372036854775808) by lia.
+  destruct (C04.CstrFacts.arr_view_ok (buf s) Hb) as (Hv & Hch).
+  assert (Hz : cstr_ok (arr_view (buf s))).
+  { split; [exact Hv|]. exists (get_size s). rewrite Hch. cbn [arr_view vlen]. split; [lia|exact Ht]. }
+  destruct (cstr_view_spec (arr_view (buf s)) Hz) as (v & Ev & Hvok & Hvch). rewrite Hch in Hvch.
+  unfold cstr_view in Ev. destruct (strlen_m (arr_view (buf s))) as [n| | |]; cbn [rbind] in Ev; try discriminate.
+  inversion Ev; subst v; clear Ev. pose proof Hvok as (_ & Hn1 & Hn2). cbn [voff vlen vbuf arr_view] in *.
+  unfold vchars in Hvch. cbn [voff vlen vbuf skipn Z.to_nat] in Hvch.
+  (* the C string of the array is the C string of contents ++ [0] *)
+  assert (Hsplit : buf s = (contents s ++ [0]) ++ skipn (S (Z.to_nat (get_size s))) (buf s)).
+  { rewrite (list_split_at (buf s) (Z.to_nat (get_size s))) at 1 by (unfold zlen in Hl; lia).
+    unfold znth in Ht. rewrite Ht. unfold contents. rewrite <- app_assoc. reflexivity. }
+  assert (Hcs : forall (a t : list Z), cstr_s ((a ++ [0]) ++ t) = cstr_s (a ++ [0])).
+  { induction a as [|x a IH]; intros t; cbn [app cstr_s]; [reflexivity|]. destruct (x =? 0); [reflexivity|]. rewrite IH. reflexivity. }
+  assert (Hcstr : cstr_s (buf s) = cstr_s (contents s ++ [0])) by (rewrite Hsplit at 1; apply Hcs).
+  assert (Hlen : forall a : list Z, zlen (cstr_s (a ++ [0])) <= zlen a /\ (Forall (fun c => c <> 0) a -> cstr_s (a ++ [0]) = a)).
+  { induction a as [|x a IH]; cbn [app cstr_s].
+    - split; [unfold zlen; cbn; lia|reflexivity].
+    - destruct IH as (IH1 & IH2). destruct (x =? 0) eqn:E.
+      + split; [unfold zlen; cbn [length]; lia|]. intros F. inversion F; subst. lia.
+      + split; [unfold zlen in *; cbn [length]; lia|]. intros F. inversion F; subst. rewrite IH2 by assumption. reflexivity. }
+  pose proof (contents_len s I) as L. destruct (Hlen (contents s)) as (Hle & Hall).
+  assert (Hn : n = zlen (cstr_s (contents s ++ [0]))).
+  { rewrite <- Hcstr, <- Hvch. unfold zlen. rewrite firstn_length. unfold len in Hn2. lia. }
+  exists n. split; [reflexivity|]. split; [lia|]. split.
+  - rewrite Hvch. exact Hcstr.
+  - intros F. rewrite Hn, (Hall F). exact L.
 Qed.
